@@ -177,15 +177,36 @@ prop('C10', level='other',
                  'fails C04/C05/C07 obligations. The covariance statement itself (two runs compared, powers of two, exact) is '
                  'bounded: corpus x centring x method x scale factors.')
 
-prop('C11', level='other', units=['bycycle.group.utils.check_kwargs_shape'], jobs=['group_2d'],
-     explanation='Bounded so far: compute_features_2d(axis=0) and BycycleGroup.fit against per-row compute_features for 1..4 (6) '
-                 'pairwise different rows, shared / per-row option lists, n_jobs 1..rows+2, injected per-row delays so that early rows '
-                 'finish last. Deductive: the option-list shape guard.')
+GF = 'bycycle.group.features.'
+prop('C11', level='other',
+     units=[GF + 'compute_features_2d', GF + '_proxy_2d', 'bycycle.group.utils.check_kwargs_shape'],
+     jobs=['group_2d'],
+     unit_jobs={GF + 'compute_features_2d': ['group_2d']},
+     no_input_kinds=('ensures', 'frame'),
+     trusted=['multiprocessing.Pool.imap yields f(x_k) in input order whatever the number of workers and their completion '
+              'order (assumed contract; imap_unordered is modelled as an arbitrary permutation)',
+              'functools.partial, zip, deepcopy of option lists (new element objects), progress_bar (same items, same order; '
+              'its body has a try/except around the optional tqdm import and is not verified)'],
+     explanation='Proved relative to the imap ordering contract, for every number of rows and every n_jobs: '
+                 'compute_features_2d(axis=0) returns len(sigs) tables and position i is CF(sigs[i], fs, f_range, return_samples, '
+                 'options of row i minus return_samples) for a shared dict, None and a per-row list (the one-element-list branch '
+                 'included), with progress None and tqdm; the caller\'s option objects are untouched (frame obligation on the '
+                 'in-place pops: they hit the deep copy); a per-row list of the wrong length and every axis other than 0 / None '
+                 'raise ValueError. CF is the uninterpreted per-signal analysis (compute_features itself is verified under C01-C07). '
+                 'Independence of worker completion order inside multiprocessing is inherited from the imap contract; the bounded '
+                 'job perturbs completion order with injected delays. BycycleGroup.fit: bounded.')
 
-prop('C12', level='other', units=['bycycle.group.utils.check_kwargs_shape'], jobs=['group_3d', 'kwargs_shape'],
-     explanation='Bounded so far: all shapes (n0, n1) up to 2x2 (3x3), three axis modes, shared / 1-D / 2-D option lists, against '
-                 'per-signal / per-slice analyses. Deductive: the option-list shape guard (the 2-D-list-with-axis-0/1 hole is a '
-                 'proved must-raise obligation).')
+prop('C12', level='other',
+     units=[GF + 'compute_features_3d', GF + 'compute_features_2d', 'bycycle.group.utils.check_kwargs_shape'],
+     jobs=['group_3d', 'kwargs_shape'],
+     unit_jobs={GF + 'compute_features_3d': ['group_3d']},
+     no_input_kinds=('frame',),
+     explanation='Proved for all extents (n0, n1), size-1 dimensions included: with axis=(0,1) the nested result has n0 rows and '
+                 'entry [i][j] is CF(sigs[i][j], options at [i][j]) for a shared dict, None and a 2-D option list - through the '
+                 'reshape contract (row-major), the callee contract of compute_features_2d and two nested loop invariants over the '
+                 'copy-back index i*n1 + j (the i + j index of the pinned tree fails inv-keep with the model n1 = 2, (i, j) = (1, 0)); '
+                 'wrong option-list shapes raise ValueError. Bounded so far: axis=0 and axis=1 (per-slice epoched analyses, '
+                 'transposition) - all shapes up to 2x2 (3x3).')
 
 prop('C13', level='other', units=[], jobs=['epoch_df', 'group_epoched'],
      explanation='Bounded so far: epoch_df exhaustively on synthetic tables (boundaries on cycle ends, empty epochs); '
@@ -209,11 +230,13 @@ prop('C15', level='other',
             F + 'shape.compute_symmetry', F + 'shape.compute_band_amp', F + 'cyclepoints.compute_cyclepoints',
             F + 'burst.compute_burst_features', F + 'burst.compute_amp_fraction', F + 'burst.compute_amp_consistency',
             F + 'burst.compute_period_consistency', F + 'burst.compute_monotonicity', F + 'burst.compute_burst_fraction',
-            DF + 'drop_samples_df'],
+            DF + 'drop_samples_df', GF + 'compute_features_2d', GF + 'compute_features_3d', BU + 'recompute_edges'],
      jobs=['purity', 'pipeline:C15', 'armed'],
+     no_input_kinds=('frame',),
      explanation='Frame obligations (modifies = []) at every store and mutating call of the listed feature functions: a store must '
                  'reach an object allocated on the path (library allocation behaviour from the assumed numpy / pandas-3 copy-on-write '
-                 'contracts). Not yet under contract: group functions, recompute_edges, limit_df, epoch_df, plotting functions - '
+                 'contracts); also compute_features_2d(axis=0), compute_features_3d(axis=(0,1)) and recompute_edges. Not under contract: '
+                 'limit_df, epoch_df, the axis=None / axis 0,1 group paths, plotting functions - '
                  'these are covered by the bounded purity job (call sequences sharing argument objects, deep comparison).')
 
 prop('C16', level='other',
